@@ -24,7 +24,8 @@ def load(path):
 
 
 def all_controls():
-    return sorted(glob.glob(os.path.join(V, "selftest", "mutants", "*.json"))) + sorted(glob.glob(os.path.join(V, "seeded", "*", "meta.json")))
+    seeded = [p for p in sorted(glob.glob(os.path.join(V, "seeded", "*", "meta.json"))) if "retired" not in json.load(open(p))]
+    return sorted(glob.glob(os.path.join(V, "selftest", "mutants", "*.json"))) + seeded
 
 
 def run_one(path, repo, tier):
